@@ -134,6 +134,7 @@ class _Enc:
         self.out = bytearray()
         self.e = '<' if little else '>'
         self.fds = fds
+        self.marks = []     # (index in out, width, kind) of every length field written
 
     @property
     def pos(self):
@@ -164,15 +165,18 @@ class _Enc:
             self.out += raw if self.e == '>' else raw[::-1]
         elif c in 'so':
             raw = v.encode('utf-8')
+            self.marks.append((len(self.out), 4, 'str'))
             self.out += struct.pack(self.e + 'I', len(raw)) + raw + b'\0'
         elif c == 'g':
             raw = v.encode('ascii')
             if len(raw) > 255:
                 raise RefError('signature too long')
+            self.marks.append((len(self.out), 1, 'sig'))
             self.out += bytes([len(raw)]) + raw + b'\0'
         elif c == 'a':
             et = t[1:]
             lenpos = len(self.out)
+            self.marks.append((lenpos, 4, 'arr'))
             self.out += b'\0\0\0\0'
             self.pad(ALIGN[et[0]])
             start = len(self.out)
@@ -400,7 +404,8 @@ REQUIRED = {1: {1, 3}, 2: {5}, 3: {4, 5}, 4: {1, 2, 3}}
 
 
 def encode_message(mtype, serial, fields, body_sig='', body=(), little=True,
-                   flags=0, field_order=None, extra_fields=(), fds=None, version=1):
+                   flags=0, field_order=None, extra_fields=(), fds=None, version=1,
+                   raw_body=None, marks=None):
     """fields: {code:int -> tree}; the signature field (8) is added from body_sig
     unless given explicitly. extra_fields: list of (code, sig, tree) with unknown
     codes, appended/permuted by field_order (list of indices) if given."""
@@ -416,13 +421,27 @@ def encode_message(mtype, serial, fields, body_sig='', body=(), little=True,
         assert sorted(field_order) == list(range(len(fl)))
         fl = [fl[i] for i in field_order]
     bfds = [] if fds is None else fds
-    bodyb = encode(body_sig, list(body), 0, little, bfds) if body_sig else b''
-    if bfds and 9 not in f and fds is not None:
-        pass
-    hdr = encode('yyyyuua(yv)',
-                 [ord('l') if little else ord('B'), mtype, flags, version,
-                  len(bodyb), serial, fl], 0, little)
+    be = _Enc(0, little, bfds)
+    if raw_body is not None:
+        bodyb = raw_body
+    elif body_sig:
+        for t, v in zip(split_inner(body_sig), body, strict=True):
+            be.put(t, v)
+        bodyb = bytes(be.out)
+    else:
+        bodyb = b''
+    he = _Enc(0, little, None)
+    for t, v in zip(split_inner('yyyyuua(yv)'),
+                    [ord('l') if little else ord('B'), mtype, flags, version,
+                     len(bodyb), serial, fl]):
+        he.put(t, v)
+    hdr = bytes(he.out)
     padn = (-len(hdr)) % 8
+    if marks is not None:
+        marks.append((4, 4, 'bodylen'))
+        marks.extend(m for m in he.marks)
+        base = len(hdr) + padn
+        marks.extend((p + base, w, k) for p, w, k in be.marks)
     return hdr + b'\0' * padn + bodyb
 
 
